@@ -20,6 +20,7 @@ type CheckDef struct {
 	Assumptions []string
 	ProbeEvery  int
 	Tweak       func(g *Gen, c *Config)
+	Scripts     []string // history index i (per profile) < len(Scripts) starts with scripted prefix Scripts[i]
 	QuickWatch  time.Duration
 	ThorWatch   time.Duration
 }
@@ -61,13 +62,71 @@ func profiles() map[string]*Profile {
 	return out
 }
 
-func script(name string, g *Gen) []Step { return nil }
+// ---- scripted prefixes ---------------------------------------------------------------------------
+// A scripted prefix is a short deterministic scenario that guarantees that the situations a property
+// is about occur in every run; the random continuation follows it. Scripts may adjust the config.
+
+type Script func(g *Gen, c *Config) []Step
+
+func blk(dt time.Duration, fees string) Step {
+	return Step{K: "block", Block: &BlockSpec{DtNs: int64(dt), Fees: fees}}
+}
+
+func scripts() map[string]Script {
+	return map[string]Script{
+		// an asset in warm-up is staked, claimed (nothing), and its start time passes during a quiet
+		// period with no other trigger; then claims on it and on a started asset
+		"warmup-quiet": func(g *Gen, c *Config) []Step {
+			c.Assets = []AssetSpec{
+				{Denom: "aaa", Weight: "0.5", WMin: "0", WMax: "10", TakeRate: "0", StartDelay: -int64(time.Hour), Mag: "1000000"},
+				{Denom: "bbb", Weight: "1", WMin: "0", WMax: "10", TakeRate: "0", StartDelay: int64(2 * time.Hour), Mag: "1000000"},
+			}
+			c.Fund = "1000000000"
+			fee := "3000000stake,500000uusd"
+			return []Step{
+				{K: "delegate", A: 0, V: 1, Den: "aaa", Amt: "5000000"},
+				{K: "delegate", A: 1, V: 1, Den: "bbb", Amt: "7000000"},
+				{K: "delegate", A: 1, V: 2, Den: "bbb", Amt: "1000000"},
+				blk(time.Minute, fee),
+				blk(time.Minute, fee),
+				{K: "claim", A: 1, V: 1, Den: "bbb"},
+				{K: "claim", A: 0, V: 1, Den: "aaa"},
+				{K: "delegate", A: 1, V: 1, Den: "bbb", Amt: "1000"},
+				blk(time.Minute, fee),
+				// quiet blocks around the start time of bbb (T0+2h): -1ns, =, +1ns, then two more quiet ones
+				blk(2*time.Hour-3*time.Minute-1, fee),
+				blk(1, fee),
+				blk(1, fee),
+				blk(time.Minute, fee),
+				blk(time.Minute, fee),
+				{K: "claim", A: 1, V: 1, Den: "bbb"},
+				{K: "claim", A: 0, V: 1, Den: "aaa"},
+				blk(time.Minute, fee),
+			}
+		},
+		// a native delegator removes the whole delegation, followed by quiet blocks
+		"native-full-exit": func(g *Gen, c *Config) []Step {
+			fee := "2000000stake"
+			return []Step{
+				{K: "delegate", A: 0, V: 1, Den: c.Assets[0].Denom, Amt: c.Assets[0].Mag},
+				{K: "ndelegate", A: 2, V: 2, Amt: "3000000"},
+				blk(6*time.Second, fee),
+				blk(6*time.Second, fee),
+				{K: "nundelegate", A: 2, V: 2, Amt: "3000000"},
+				blk(6*time.Second, fee),
+				blk(6*time.Second, fee),
+				blk(6*time.Second, fee),
+			}
+		},
+	}
+}
+
 
 func checkDefs() map[string]*CheckDef {
 	defs := []*CheckDef{
 		{
 			Prop: "C01",
-			Runs: []ProfRun{{"core", 64, 1200}, {"extreme", 32, 600}, {"native", 16, 300}},
+			Runs: []ProfRun{{"core", 48, 900}, {"queue", 48, 900}, {"extreme", 24, 450}, {"native", 16, 300}},
 			Mons: func(r *Runner) []Monitor { return []Monitor{NewMonC01(r)} },
 			Required: []string{"C01.payout", "C01.take-rate", "C01.slash-with-unbonding", "C01.donation"},
 			Rule: "seeded random histories (profiles core/extreme/native: user ops, slashes via real evidence/downtime, take-rate, donations, hostile block spacing); after every transaction, slash callback, end-block and begin-block the custody balance of every asset denom is compared with staked total + pending unbondings (+ donations, + stranded rewards of the recorded finding); a situation class = kind of step that touched custody (tx kind, payout, take-rate deduction, slash with pending unbonding, donation)",
@@ -83,6 +142,7 @@ func checkDefs() map[string]*CheckDef {
 		},
 		{
 			Prop: "C10",
+			Scripts: []string{"warmup-quiet", "native-full-exit"},
 			Runs: []ProfRun{{"native", 64, 1200}, {"core", 32, 600}},
 			Mons: func(r *Runner) []Monitor { return []Monitor{NewMonC10(r)} },
 			Required: []string{"C10.quiet-block", "C10.trigger.slash", "C10.trigger.ndelegate", "C10.trigger.nundelegate", "C10.trigger.full-native-undelegation"},
@@ -115,6 +175,8 @@ func checkDefs() map[string]*CheckDef {
 		},
 	}
 	defs = append(defs, queueDefs()...)
+	defs = append(defs, timeDefs()...)
+	defs = append(defs, valueDefs()...)
 	out := map[string]*CheckDef{}
 	for _, d := range defs {
 		out[d.Prop] = d
@@ -166,6 +228,69 @@ func queueDefs() []*CheckDef {
 			ProbeEvery: 2,
 			Required: []string{"C15.redelegate/dstExistedfalse", "C15.redelegate/dstExistedtrue", "C15.refused-transitive", "C15.probe/pending-inbound", "C15.matured", "C15.boundary/completion=blocktime-kept"},
 			Rule: "every successful redelegation must move exactly the amount between the two positions (exact-rational values, 18-digit budget), pay nothing out, leave staked total and custody unchanged and record an entry completing at block time + unbonding period; after every step a probe on a branch tries to redelegate 1 unit out of every position: it must be refused as transitive exactly while a reference entry into that validator is pending; after every end-of-block the raw records, source index and time queue must equal the reference entries with completion >= block time; a situation class = (destination existed, full balance, chain hop) plus boundary relations",
+			Assumptions: commonAssumptions,
+		},
+	}
+}
+
+func timeDefs() []*CheckDef {
+	return []*CheckDef{
+		{
+			Prop: "C09",
+			Runs: []ProfRun{{"time", 64, 1200}, {"core", 32, 600}, {"extreme", 16, 300}},
+			Mons: func(r *Runner) []Monitor { return []Monitor{NewMonC09(r)} },
+			Required: []string{"C09.deduct/n1", "C09.deduct/n2-9", "C09.deduct/n10+", "C09.clock/advanced-n-intervals", "C09.clock/no-eligible-asset", "C09.skip/startedfalse", "C09.floor-at-one"},
+			Rule: "around every end-of-block of seeded histories (rates 1e-18..0.999, claim intervals 1s..1h, gaps 1ns..1000 intervals, deposits and withdrawals between deductions, dust-only periods): trigger iff block time > clock + interval, n = floor((T-clock)/interval), new total = floor(T*(1-r)^n) against a 2048-bit reference power within the 18-digit budget (never to zero), fee-collector transfer in the event log equals the difference exactly, clock advances by exactly n intervals, every position shrinks by the common factor, assets before their start time or with rate 0 untouched, and a reference deposit log decides retroactive charging; a situation class = (intervals class, rate class, magnitude class) of deductions, skip reasons, clock outcomes",
+			Assumptions: commonAssumptions,
+		},
+		{
+			Prop: "C14",
+			Scripts: []string{"warmup-quiet"},
+			Runs: []ProfRun{{"time", 64, 1200}, {"gov", 48, 900}},
+			Mons: func(r *Runner) []Monitor { r.NeedPending = true; return []Monitor{NewMonC14(r)} },
+			Required: []string{"C14.decayed/n1", "C14.decayed/n>1", "C14.decayed/n>1/rate<1/min", "C14.not-due", "C14.warmup", "C14.weight-changed/tx gov_update", "C14.weight-changed/end-block", "C14.pending-at-change"},
+			Rule: "after every step the weight of every asset must lie in its range; around every end-of-block, per asset with decay configured and due: weight' = clamp(weight*rate^n) against a 2048-bit reference within the 18-digit budget, decay clock advanced by exactly n intervals (never past block time), otherwise weight and clock untouched; in every step that stores a different weight (decay or governance) every validator for which x/distribution held >= 1 unit for the module (read on a branch before the step) must show its withdraw_rewards in that step's event log; warm-up assets are not charged and not initialised early; a situation class = (n=1/n>1, rate<1/>1, clamped min/max/in-range), not-due, weight change kind, rewards pending at change",
+			Assumptions: commonAssumptions,
+		},
+	}
+}
+
+func valueDefs() []*CheckDef {
+	return []*CheckDef{
+		{
+			Prop: "C13",
+			Scripts: []string{"warmup-quiet"},
+			Runs: []ProfRun{{"noslash", 64, 1200}, {"core", 32, 600}},
+			Mons: func(r *Runner) []Monitor { return []Monitor{NewMonC13(r)} },
+			Required: []string{"C13.claim/explicit", "C13.claim/implicit-delegate", "C13.claim/implicit-undelegate", "C13.claim/implicit-redelegate", "C13.settle/delegate", "C13.settle/redelegate", "C13.not-retroactive/redelegate/existedfalse", "C13.not-retroactive/redelegate/existedtrue", "C13.not-retroactive/delegate/existedfalse", "C13.idempotent", "C13.claim/warmup"},
+			Rule: "every withdraw_rewards(module, V) event of every step is attributed from the eager pre-step snapshot to the started assets on V by weight x share of the asset and pro rata to exact position values (entitlement at receipt); every explicit or implicit claim (identified from the typed events) of a position without a value-changing event since accrual must pay its accumulated entitlement within [-1-rho, +rho]; every stake-changing step on V with rewards pending for the module (read on a branch before the step) must settle them in that step; right after a delegate/redelegate a probe claim on a branch must pay nothing, an immediate second claim pays nothing, a claim changes no staked value, pool ledger conserved; a situation class = (claim kind, receipts, reward denoms), settle kind, probe kind x position existed",
+			Assumptions: commonAssumptions,
+		},
+		{
+			Prop: "C12",
+			Runs: []ProfRun{{"noslash", 32, 600}, {"core", 48, 900}, {"extreme", 16, 300}},
+			Mons: func(r *Runner) []Monitor { return []Monitor{NewMonC12(r)} },
+			ProbeEvery: 3,
+			Required: []string{"C12.claim-all/", "C12.slash-between-accrual-and-claim"},
+			Rule: "after every k-th step, on branches of the live state: claim for EVERY delegation in three orders (store order, reverse, largest first); every claim must succeed; cumulative ledger from the event log: total paid by the pool <= total forwarded to it, per denom; solvency failures are matched against the recorded mechanisms using the exact entitlement E and the implemented index x current-value column Q of the reward shadow (slash-inflation, index-round-up) and are violations otherwise; slash-free profile must be strictly silent; a situation class = (positions, slashes so far, magnitude class)",
+			Assumptions: commonAssumptions,
+		},
+		{
+			Prop: "C04",
+			Runs: []ProfRun{{"core", 64, 1200}, {"queue", 32, 600}, {"extreme", 32, 600}},
+			Mons: func(r *Runner) []Monitor { return []Monitor{NewMonC04(r)} },
+			ProbeEvery: 2,
+			Required: []string{"C04.delegate/", "C04.undelegate/", "C04.redelegate/", "C04.claim/", "C04.round-trip/"},
+			Rule: "every successful delegate/undelegate/redelegate/claim of seeded histories (share/token ratios after take-rate deductions and slashes, amounts from 1 unit against huge totals and vice versa): exact-rational value of EVERY position before and after; actor +-amount, everybody else 0, positions of other assets exactly unchanged, within one base unit plus the 18-digit budget scaled by the share price; reported values sum <= staked total + one per position after every step; round-trip probe on a branch (fresh delegation's reported balance <= amount); a situation class = (operation, magnitude class, number of positions)",
+			Assumptions: commonAssumptions,
+		},
+		{
+			Prop: "C05",
+			Runs: []ProfRun{{"core", 32, 600}, {"queue", 16, 300}, {"extreme", 24, 450}},
+			Mons: func(r *Runner) []Monitor { return []Monitor{NewMonC12(r), NewMonC05(r)} },
+			ProbeEvery: 4,
+			Required: []string{"C05.state/slashes0", "C05.state/slashes1", "C05.state/slashes3"},
+			Rule: "after every k-th step of seeded histories (slashes of every fraction up to 100%, take-rate deductions, jailed/unbonded validators, warm-up) probe transactions on discarded branches: delegate 1 unit and a large amount of every asset to every validator, and for every position with a positive reported balance claim then undelegate the full reported balance; each must succeed; failures are matched against the recorded mechanisms (zero-value-validator, pool-short, precision-18dec) and are violations otherwise; a situation class = (slashes so far, jailed validators, number of positions)",
 			Assumptions: commonAssumptions,
 		},
 	}
